@@ -52,6 +52,10 @@ package witness
 //@   modifies n_sign, sign_err, sign_out, sign_n, st_has, st_val, cnt
 //@   // the witness's own keys are not log keys (configuration precondition; needed for "a cosigned note still opens under the log key")
 //@   requires known ==> !signerKey(w.Signers, L.SigV)
+//@   // the published witness verifier belongs to one of the signers; what the store holds for this log was cosigned by it
+//@   // (representation invariant of the store: established by an empty store, preserved by C10.i below, nothing else writes: C01.w)
+//@   requires signerFor(w.Signers, witV())
+//@   requires stored && known ==> parsesAs(pv, L.Origin, witV())
 //@   requires cAttempt != nil && cSuccess != nil && cInvalid != nil && cIncons != nil
 //@   requires cAttempt != cSuccess && cAttempt != cInvalid && cAttempt != cIncons && cSuccess != cInvalid && cSuccess != cIncons && cInvalid != cIncons
 //@
@@ -95,6 +99,15 @@ package witness
 //@   ensures[C09.8]  !fault && V == V_Accept   && !zeroGrow ==> err == nil
 //@   ensures[C09.9]  fault ==> err != nil && out == nil && !isSentinel(err)
 //@
+//@   // ---- what callers (bastion, feeder) rely on (C10): the four store refusals come with the stored checkpoint,
+//@   //      and everything stored or returned is a checkpoint of this log carrying the witness's own signature
+//@   ensures[C10.s]  (err == ErrOldSizeInvalid || err == ErrCheckpointStale || err == ErrRootMismatch || err == ErrInvalidProof) ==> stored && out == pv
+//@   ensures[C10.s]  (err == ErrNoValidSignature || err == ErrUnknownLog) ==> out == nil
+//@   ensures[C10.s]  err == ErrCheckpointStale ==> oldSize != pS
+//@   ensures[C10.s]  err != nil && !isSentinel(err) ==> out == nil
+//@   ensures[C10.i,C04.i] committed ==> parsesAs(set_arg, L.Origin, witV())
+//@   ensures[C09.u]  !fault && V == V_StoredUnreadable ==> out == nil && err != nil && !isSentinel(err)
+//@
 //@   // ---- honest progress (C08): what is stored always re-opens under the log's key; an honest step is accepted
 //@   ensures[C08.a]  committed ==> parsesAs(set_arg, L.Origin, L.SigV)
 //@   ensures[C08.c]  !fault && known && nOK && nsig(nextRaw) == 1 && stored && pOK && oldSize == pS && pS <= nS
@@ -111,12 +124,19 @@ package witness
 
 //@ func (*Witness).GetCheckpoint
 //@   returns (out, err)
-//@   let S := w.lsp
+//@   let S        := w.lsp
+//@   let roFail   := n_ro == old(n_ro) + 1 && ro_err != nil
+//@   let glCalled := n_gl == old(n_gl) + 1
+//@   let glFail   := glCalled && gl_err != nil && code(gl_err) != NotFound
 //@   requires w != nil && w.lsp != nil
 //@   modifies n_ro, ro_err, n_gl, gl_err, gl_val, gl_h
+//@   // a read returns exactly the stored bytes, or NotFound when nothing is stored; storage faults are passed on
 //@   ensures[C04.g,C16.g] err == nil ==> st_has[S][logID] && out == st_val[S][logID]
-//@   ensures[C04.g,C16.g] st_has[S][logID] && !(n_ro == old(n_ro) + 1 && ro_err != nil) && !(n_gl == old(n_gl) + 1 && gl_err != nil) ==> err == nil
-//@   ensures[C16.n]  !st_has[S][logID] ==> err != nil && (!(n_ro == old(n_ro) + 1 && ro_err != nil) ==> code(err) == NotFound || code(gl_err) != NotFound) && out == nil
+//@   ensures[C04.g,C16.g] st_has[S][logID] && !roFail && !glFail ==> err == nil
+//@   ensures[C16.n,C13.g] err != nil ==> out == nil && !isSentinel(err)
+//@   ensures[C16.n,C13.g] err != nil && code(err) == NotFound ==> !st_has[S][logID]
+//@   ensures[C16.n,C13.g] !st_has[S][logID] && !roFail && !glFail ==> err != nil && code(err) == NotFound
+//@   ensures[C16.n] n_ro == old(n_ro) + 1 && (!roFail ==> glCalled)
 //@   ensures[C03.g,C16.f] st_has == old(st_has) && st_val == old(st_val) && n_commit == old(n_commit) && n_wo == old(n_wo) && n_set == old(n_set)
 
 //@ func New
